@@ -81,6 +81,11 @@ func (p *Prog) Implementers(ifacePkg, ifaceName, method string) []*ssa.Function 
 				if fn.Synthetic != "" {
 					continue
 				}
+				// a hand-written forwarder - `func (m *T) M(a, b) R { return m.inner.M(a, b) }` - is what the
+				// compiler generates for a promoted method: the implementation is the delegate's
+				if isPlainForwarder(fn, method) {
+					continue
+				}
 				seen[fn] = true
 				out = append(out, fn)
 				break
@@ -260,4 +265,112 @@ func recvTypeName(fn *ssa.Function) string {
 		return n.Obj().Name()
 	}
 	return ""
+}
+
+// isPlainForwarder: fn consists of one call of the same-named method on a field of its receiver, with its own
+// parameters in order, whose results it returns unchanged; nothing else happens.
+func isPlainForwarder(fn *ssa.Function, method string) bool {
+	if len(fn.Blocks) != 1 || len(fn.Params) == 0 {
+		return false
+	}
+	var call *ssa.Call
+	var spill *ssa.Alloc // a value receiver spilled into a local: `t0 = local T (e); *t0 = e`
+	for _, in := range fn.Blocks[0].Instrs {
+		switch t := in.(type) {
+		case *ssa.FieldAddr, *ssa.Field, *ssa.UnOp, *ssa.Extract, *ssa.DebugRef, *ssa.Return:
+		case *ssa.Alloc:
+			if spill != nil || t.Heap {
+				return false
+			}
+			spill = t
+		case *ssa.Store:
+			if spill == nil || t.Addr != ssa.Value(spill) || t.Val != ssa.Value(fn.Params[0]) {
+				return false
+			}
+		case *ssa.Call:
+			if call != nil {
+				return false
+			}
+			call = t
+		default:
+			return false
+		}
+	}
+	if call == nil {
+		return false
+	}
+	var recv ssa.Value
+	args := call.Call.Args
+	if call.Call.IsInvoke() {
+		if call.Call.Method.Name() != method {
+			return false
+		}
+		// the delegate is one of the repository's own interfaces (its implementations are analysed themselves)
+		if n, isN := call.Call.Value.Type().(*types.Named); !isN || n.Obj().Pkg() == nil || !IsRepoPkg(n.Obj().Pkg()) {
+			return false
+		}
+		recv = call.Call.Value
+	} else {
+		f := call.Call.StaticCallee()
+		if f == nil || f.Name() != method || f.Signature.Recv() == nil || len(args) == 0 || f.Pkg == nil || !IsRepoPkg(f.Pkg.Pkg) {
+			return false
+		}
+		recv, args = args[0], args[1:]
+	}
+	// the receiver of the inner call is a field of fn's receiver
+	rooted := false
+	v := recv
+	for i := 0; i < 4; i++ {
+		switch t := v.(type) {
+		case *ssa.UnOp:
+			v = t.X
+			continue
+		case *ssa.FieldAddr:
+			if t.X == ssa.Value(fn.Params[0]) || (spill != nil && t.X == ssa.Value(spill)) {
+				rooted = true
+			}
+			v = t.X
+			continue
+		case *ssa.Field:
+			if t.X == ssa.Value(fn.Params[0]) {
+				rooted = true // value receiver
+			}
+			v = t.X
+			continue
+		}
+		break
+	}
+	if !rooted || len(args) != len(fn.Params)-1 {
+		return false
+	}
+	for i, a := range args {
+		if a != ssa.Value(fn.Params[i+1]) {
+			return false
+		}
+	}
+	ret, ok := fn.Blocks[0].Instrs[len(fn.Blocks[0].Instrs)-1].(*ssa.Return)
+	if !ok {
+		return false
+	}
+	for i, rv := range ret.Results {
+		if rv == ssa.Value(call) && len(ret.Results) == 1 {
+			continue
+		}
+		ex, isEx := rv.(*ssa.Extract)
+		if !isEx || ex.Tuple != ssa.Value(call) || ex.Index != i {
+			return false
+		}
+	}
+	return true
+}
+
+// methodArgs returns the arguments of a method call without the receiver (for a static call of a method the
+// receiver is the first SSA argument, for an interface call it is not among them).
+func methodArgs(c *ssa.CallCommon) []ssa.Value {
+	if !c.IsInvoke() {
+		if f := c.StaticCallee(); f != nil && f.Signature.Recv() != nil && len(c.Args) > 0 {
+			return c.Args[1:]
+		}
+	}
+	return c.Args
 }
